@@ -626,7 +626,7 @@ fn engine_uninit(args: &Args) -> i32 {
                     rng.next() & all,
                     rng.next() & all,
                     1,
-                    1 << (len - 1),
+                    1u64 << ((len - 1).min(63)),
                 ]
             };
             for path in 0..uninit::SLICE_PATHS {
